@@ -19,6 +19,6 @@ for p in "$@"; do
     out=$(cd "$D/verif" && ./check "$p" quick 2>&1)
     code=$?
     echo "== $p exit=$code"
-    echo "$out" | grep -E "VIOLATION|KNOWN-FINDING|HARNESS|class=" | cut -c1-300 | head -12
+    echo "$out" | grep -E "VIOLATION|KNOWN-FINDING|HARNESS|class=|CALIB" | cut -c1-300 | head -12
     echo "$out" | tail -1 | cut -c1-200
 done
